@@ -516,7 +516,8 @@ static int ec_edit(char *loc, char *cmd, char *arg, char *txt)
 	/* a reload that failed did not bring the file's content into the buffer */
 	if (fd >= 0 ? !rd : fresh)
 		lbuf_saved(xb, path[0] != '\0');
-	bufs[0].mtime = mtime(ex_path());
+	if (fd >= 0 && !rd)	/* only a file that was read may later be overwritten without ! */
+		bufs[0].mtime = mtime(ex_path());
 	xrow = MAX(0, MIN(xrow, lbuf_len(xb) - 1));
 	xoff = 0;
 	xtop = MAX(0, MIN(xtop, lbuf_len(xb) - 1));
